@@ -71,7 +71,8 @@ class Spec:
 
     def _doc_body(self):
         """DFA: states q0 (no pending quotes), q1 (one unescaped quote seen), q2 (two), esc (after backslash), dead.
-        Accepting: any non-dead state except esc (an odd trailing backslash would escape the closing delimiter)."""
+        Accepting: q0 only (a trailing unescaped quote would merge with the closing delimiter, a trailing odd backslash
+        would escape it)."""
         from .automata import DFA
         A = self.A
         n = A.n
@@ -85,7 +86,7 @@ class Spec:
             rows.append(row)
         rows.append([q0] * n)          # esc: any character is skipped
         rows.append([dead] * n)
-        return Lang(DFA(rows, [True, True, True, False, False]))
+        return Lang(DFA(rows, [True, False, False, False, False]))
 
     @staticmethod
     def named(L: Lang, name: str) -> Lang:
